@@ -208,6 +208,15 @@ def handle (j : Json) : IO Unit := do
   let kind := jstr (jget j "kind")
   let impl := jget j "impl"
   match kind with
+  | "prodloop" =>
+    -- the production wiring left to itself: after every change of the listings the periodic discovery loop must
+    -- bring the model -> endpoints attribution to that of the most recent listings
+    if jstr (jget impl "start_err") != "" then
+      emit case false true "start-error" "" (jstr (jget impl "start_err"))
+    else
+      let bad := (jarr (jget impl "rounds")).filter (fun r => (jget r "want").compress != (jget r "got").compress)
+      emit case bad.isEmpty bad.isEmpty "prodloop" (if bad.isEmpty then "" else "catalogue-not-updated-by-the-discovery-loop")
+        (if bad.isEmpty then "" else s!"round {jnat (jget (bad.headD Json.null) "round")}: listed {(jget (bad.headD Json.null) "listed").compress}, model -> endpoints {(jget (bad.headD Json.null) "got").compress}, expected {(jget (bad.headD Json.null) "want").compress}")
   | "hist" =>
     let seq := jstr (jget j "mode") != "forced"
     if !seq && active.inOrder == .fixed then
